@@ -144,6 +144,7 @@ def workload(tier, seed):
     for lo in range(0, nr, 25):
         yield "cli_seed", {"lo": lo, "hi": lo + (8 if tier == "quick" else 25)}
     yield "files", {}
+    yield "text_headers", {}
     sizes = (256, 4096, 8192, 65536) if tier == "quick" else [1 << k for k in range(8, 18)] + [3 << 12, 3 << 13, 3 << 15, 5 << 12, 65535, 65537]
     for N in sizes:
         yield "text", {"tails": [["and", str(N), "0"], ["and", str(N // 2), str(N - N // 2)]], "rseed": seed + 1}
@@ -176,7 +177,7 @@ def eval_rows(rows, true):
     return True
 
 
-def case_text(ctx, tails, rseed):
+def case_text(ctx, tails, rseed, quiet=True):
     """What the two programs print: the DIMACS text of cnfgen and the OPB text of pbgen, read back by the reference
     readers of C06 / C12 and compared on sampled assignments.  Includes formulas whose number of constraints is a power of
     two or a multiple of one (buffered writers work in blocks of such sizes)."""
@@ -186,9 +187,9 @@ def case_text(ctx, tails, rseed):
     for tail in tails:
         label = " ".join(tail) + " [random.seed(%d) before]" % rseed
         random.seed(rseed)
-        a = run_main("cnfgen", ["-q"] + list(tail))
+        a = run_main("cnfgen", (["-q"] if quiet else []) + list(tail))
         random.seed(rseed)
-        b = run_main("pbgen", ["-q"] + list(tail))
+        b = run_main("pbgen", (["-q"] if quiet else []) + list(tail))
         ctx.count("text_pairs")
         if a.exc is not None or b.exc is not None or a.rc != 0 or b.rc != 0:
             if (a.rc, type(a.exc)) != (b.rc, type(b.exc)):
@@ -229,6 +230,31 @@ def case_text(ctx, tails, rseed):
             continue
         ctx.judged(("text", tuple(tail), rseed), nontrivial=n > 0,
                    sample={"argv": tail, "variables": n, "clauses": len(clauses), "opb_rows": len(T.rows), "satisfying_samples": sum(va)})
+
+
+def case_text_headers(ctx):
+    """The printed texts with their comment headers on, for input files whose names (echoed in the header) contain line
+    breaks of every kind: both texts must still read back as the same formula."""
+    import os
+    import shutil
+    import tempfile
+    tmp = tempfile.mkdtemp(prefix="c08h-")
+    try:
+        names = ["plain.cnf", "in\r+1 x1 +1 x2 >= 2 ;.cnf", "in\n-1 2 0.cnf", "in\r\n+1 x1 >= 1 ;.cnf", "x\x0cy.cnf", "x\x0b1 0.cnf",
+                 "u\u2028+1 x2 >= 1 ;.cnf", "u\x85p cnf 1 1.cnf", "c\rc.cnf", "tab\there.cnf"]
+        tails = []
+        for i, nm in enumerate(names):
+            path = os.path.join(tmp, nm)
+            try:
+                with open(path, "w") as f:
+                    f.write("p cnf 3 3\n1 2 0\n-1 3 0\n-2 -3 0\n")
+            except (OSError, ValueError):
+                continue
+            tails.append(["dimacs", path])
+        case_text(ctx, tails, 1, quiet=False)
+        ctx.count("text_pairs_with_headers", len(tails))
+    finally:
+        shutil.rmtree(tmp, ignore_errors=True)
 
 
 def case_files(ctx):
